@@ -17,8 +17,8 @@ for l in $(seq 0 $((LANES-1))); do
   (
     for n in $(cat work/par_list.$l.txt); do
       REGRESS_OUT=/verif/work/lane_regress.tsv tools/lane.sh $l tools/regress_$KIND.sh $n > work/par_lane_$l.log 2>&1
-      grep -v 'REGRESS DONE' /tmp/lanes/$l/verif/work/lane_regress.tsv >> work/par_regress_$KIND.lane$l.tsv
-      mkdir -p work/par_logs && cp /tmp/lanes/$l/verif/work/regress_$n.log /tmp/lanes/$l/verif/work/benign_${n}_*.log work/par_logs/ 2>/dev/null
+      grep -v 'REGRESS DONE' /var/tmp/lanes/$l/verif/work/lane_regress.tsv >> work/par_regress_$KIND.lane$l.tsv
+      mkdir -p work/par_logs && cp /var/tmp/lanes/$l/verif/work/regress_$n.log /var/tmp/lanes/$l/verif/work/benign_${n}_*.log work/par_logs/ 2>/dev/null
     done
   ) &
   pids="$pids $!"
